@@ -75,6 +75,11 @@ def cells(tier):
                    ('roItemReplace', {}), ('EAItemSwap', {'k': 2}), ('roItemInsert', {}), ('EAItemInsert', {'tk': 'blank'}),
                    ('EAItemDelete', {'k': 2}), ('EAItemReplace', {})):
         out.append(mk(op, 3, gap=None, rname='any', timeout=T, extra={'prefail': True}, **kw))
+    # the same when the stories were re-sent by a roStorySend before (stories built by StorySend: roID first)
+    for op, kw in (('roItemMoveMultiple', {'k': 2}), ('EAItemMove', {}), ('roItemDelete', {}), ('roItemReplace', {}),
+                   ('EAItemSwap', {'k': 2}), ('roItemInsert', {}), ('EAItemInsert', {'tk': 'blank'}), ('EAItemDelete', {'k': 2}),
+                   ('EAItemReplace', {})):
+        out.append(mk(op, 3, gap=None, rname='any', timeout=T, extra={'presend': True}, **kw))
     # the smallest shapes: a single item; every item of the story named as a source
     for op, kw in (('roItemMoveMultiple', {'tk': 'blank'}), ('EAItemMove', {'tk': 'blank'}), ('roItemDelete', {}), ('EAItemDelete', {}),
                    ('roItemReplace', {'k': 2}), ('EAItemReplace', {}), ('roItemInsert', {}), ('EAItemInsert', {'tk': 'blank'})):
